@@ -164,8 +164,14 @@ def fit_optimizer(g, y, s, constraint, objective, flip, grid_size, rng=None, hos
         if rng.random() < 0.5:
             Xin = pd.DataFrame(X, columns=["c%d" % j for j in range(X.shape[1])], index=gen.hostile_index(n, gen.pick(rng, gen.INDEX_KINDS), rng))
     est = ScoreColumn().fit(X)
-    to = ThresholdOptimizer(estimator=est, constraints=constraint, objective=objective, grid_size=grid_size, flip=flip, prefit=True,
-                            predict_method="predict")
+    if rng is not None and rng.random() < 0.25:
+        # configuration arriving through set_params after construction (what clone().set_params() / model selection does)
+        to = ThresholdOptimizer(estimator=est, prefit=True, predict_method="predict", grid_size=int(gen.pick(rng, [2, 4, 37])),
+                                flip=not flip)
+        to.set_params(constraints=constraint, objective=objective, grid_size=grid_size, flip=flip)
+    else:
+        to = ThresholdOptimizer(estimator=est, constraints=constraint, objective=objective, grid_size=grid_size, flip=flip, prefit=True,
+                                predict_method="predict")
     to.fit(Xin, yy, sensitive_features=sf)
     return to, Xin, sf
 
